@@ -82,3 +82,13 @@ Fixpoint upd {A} (k : nat) (x : A) (l : list A) : list A :=
   | _ :: r, O => x :: r
   | y :: r, S k' => y :: upd k' x r
   end.
+
+(* deterministic test strings shared with the harnesses:
+   chars k n    n printable ASCII bytes 33..126 (harness fn chars)
+   payload k n  n bytes (k*31 + i*7 + 1) mod 251 (vcommon::payload) *)
+Fixpoint gen_bytes (f : Z -> Z) (i : Z) (n : nat) : bytes :=
+  match n with O => [] | S k => f i :: gen_bytes f (i + 1) k end.
+Definition chars (k n : Z) : bytes :=
+  gen_bytes (fun i => 33 + (k * 31 + i * 7) mod 94) 0 (Z.to_nat n).
+Definition payload (k n : Z) : bytes :=
+  gen_bytes (fun i => (k * 31 + i * 7 + 1) mod 251) 0 (Z.to_nat n).
